@@ -439,7 +439,14 @@ def corpus():
     empty_other = [
         {"op": "ins", "mode": "none", "boxes": [b(0, 1)], "ext": [7], "shuffle_seed": 0, "tie": False, "single": True},
         {"op": "qt", "other": []}, {"op": "q", "box": b(1, 2)}, {"op": "q", "box": b(1.5, 2)}]
-    return [("L", two_sorted), ("M", empty), ("M", empty_other)]
+    # a chain: boxes inserted in spatial order give a one-sided tree whose depth is the number of leaves
+    # (the tree is never rebalanced); queries must reach the deep end
+    chain = [{"op": "ins", "mode": "none", "boxes": [b(2 * k, 2 * k + 1) for k in range(150)], "ext": list(range(150)),
+              "shuffle_seed": 0, "tie": False, "single": False},
+             {"op": "q", "box": b(-1, 400)}, {"op": "q", "box": b(298, 299)}, {"op": "q", "box": b(0, 1)},
+             {"op": "qt", "other": [{"op": "ins", "mode": "none", "boxes": [b(2 * k + 0.5, 2 * k + 2.5) for k in range(0, 150, 7)],
+                                     "ext": None, "shuffle_seed": 0, "tie": False, "single": False}]}]
+    return [("L", two_sorted), ("M", empty), ("M", empty_other), ("L", chain)]
 
 
 def exhaustive_overlap(ctx):
